@@ -4,6 +4,7 @@ import Cbor.Model.Serialize
 import Cbor.Model.StreamClient
 import Cbor.Drv.GenOps
 import Cbor.Model.Heap
+import Cbor.Model.HeapBuilder
 /-! Driver operations over the hand-written value-level model (same protocol as harness/tree_ops.c). -/
 namespace Drv
 open Spec Model
@@ -69,11 +70,27 @@ def codeName : Code → String
 def serInto (x : Item) (n : Nat) : UInt64 × Array UInt8 :=
   serialize x (Array.replicate n 0xEE) 0 (UInt64.ofNat n)
 
+/-- the heap-level run of the same load (incremental builder on `Heap.H`): live allocator blocks afterwards, whether every live
+cell has reference count one, and the live blocks left after releasing the result.  Only meaningful when the size cap of the
+oracle played no role (the heap-level oracle is indexed by request number alone): `none` otherwise. -/
+def heapLOAD (src : Array UInt8) (mode k cap : Nat) (L : Nat) (o : LoadOut) : Option (Nat × Bool × Nat × Bool) :=
+  let o0 := if cap == 0 then o else load (mkOracle mode k 0) L { code := .none, position := 12345, read := 54321 } src
+  if !(decide (o0.result = o.result) && o0.reqs == o.reqs && o0.item.isSome == o.item.isSome) then none else
+  let r := HB.load (fun i => mkOracle mode k 0 i 0) L {} src
+  if !(decide (r.2.1 = o.result) && r.2.2.reqs == o.reqs && r.1.isSome == o.item.isSome) then some (0, false, 0, true) else
+  let h := r.2.2
+  let rc1 := h.cells.all fun c => match c with | some c => c.rc == 1 | none => true
+  let fin := match r.1 with | some y => (h.decref y) | none => h
+  some (h.liveBlocks, rc1, fin.liveBlocks, h.fault || fin.fault)
+
 def opLOAD (src : Array UInt8) (mode k cap : Nat) (L : Nat) : String :=
   let o := load (mkOracle mode k cap) L { code := .none, position := 12345, read := 54321 } src
-  let flt := if o.fault then " MODEL-FAULT" else ""
+  let hp := heapLOAD src mode k cap L o
+  let flt := if o.fault || (match hp with | some (_, _, _, f) => f | none => false) then " MODEL-FAULT" else ""
   match o.item with
-  | none => s!"ERR {codeName o.result.code} pos={o.result.position} read={o.result.read} reqs={o.reqs} live=0{flt}"
+  | none =>
+    let live := match hp with | some (l, _, _, _) => l | none => 0
+    s!"ERR {codeName o.result.code} pos={o.result.position} read={o.result.read} reqs={o.reqs} live={live}{flt}"
   | some x =>
     let sz := (size x).toNat
     let tail :=
@@ -85,7 +102,8 @@ def opLOAD (src : Array UInt8) (mode k cap : Nat) (L : Nat) : String :=
         let r2 := serInto x (sz - 1)
         s1 ++ s!" sern1={r2.1}"
       else ""
-    s!"OK {fmtItem x} code={codeName o.result.code} read={o.result.read} reqs={o.reqs} live={blocks x} rc1=1 filled=1 size={sz}{tail} copy=ok final=0{flt}"
+    let (live, rc1, fin) := match hp with | some (l, r, f, _) => (l, if r then 1 else 0, f) | none => (blocks x, 1, 0)
+    s!"OK {fmtItem x} code={codeName o.result.code} read={o.result.read} reqs={o.reqs} live={live} rc1={rc1} filled=1 size={sz}{tail} copy=ok final={fin}{flt}"
 
 def opSER (x : Item) (n : Nat) : String :=
   let r := serInto x n
